@@ -194,6 +194,20 @@ BuildRes(s) ==
   IN Scenario("res", <<main>> \o f1 \o f2, "a")
 
 -----------------------------------------------------------------------------
+(* C05 / C17: project items whose simple name equals a built-in's (an explicit import wins over the built-in) *)
+
+ShadowNames == {"IBinder", "ParcelFileDescriptor", "FileDescriptor", "ParcelableHolder"}
+ShadowSpace == [fam : {"shadow"}, name : ShadowNames, kind : {"interface", "parcelable", "enum"},
+                imp : SUBSET {"user", "android"}, qualified : BOOLEAN, place : {<<"return">>, <<"arg", "list">>, <<"field", "mapval", "array">>}]
+
+BuildShadow(s) ==
+  LET imps == (IF "user" \in s.imp THEN <<<<"pkg", s.name>>>> ELSE <<>>)
+              \o (IF "android" \in s.imp /\ s.name # "FileDescriptor" THEN <<<<"android", "os", s.name>>>> ELSE <<>>)
+      ref == IF s.qualified THEN <<"pkg", s.name>> ELSE <<s.name>>
+      main == PlaceType(Wrap(Tail(s.place), Named(ref)), s.place[1], imps, <<>>)
+  IN Scenario("shadow", <<main, ItemFile("d1", <<"pkg">>, s.kind, s.name)>>, "a")
+
+-----------------------------------------------------------------------------
 (* C06: import lists x forward-declaration lists x usage *)
 
 ImpList == {<<"pkg", "Foo">>, <<"other", "pkg", "Foo">>, <<"pkg", "Bar">>, <<"android", "os", "IBinder">>, <<"zz", "Unk">>}
@@ -275,7 +289,8 @@ BuildSym(s) ==
   IN Scenario("sym", <<main, ref, ItemFile("foo", <<"x">>, "parcelable", "Foo")>>, "a")
 
 -----------------------------------------------------------------------------
-Space == CASE Family = "sym" -> SymSpace
+Space == CASE Family = "shadow" -> ShadowSpace
+           [] Family = "sym" -> SymSpace
            [] Family = "order" -> OrderSpace
            [] Family = "dir" -> DirSpace
            [] Family = "cont" -> ContSpace
@@ -284,7 +299,8 @@ Space == CASE Family = "sym" -> SymSpace
            [] Family = "res" -> ResSpace
            [] Family = "imp" -> ImpSpace
 
-Build(s) == CASE s.fam = "sym" -> BuildSym(s)
+Build(s) == CASE s.fam = "shadow" -> BuildShadow(s)
+              [] s.fam = "sym" -> BuildSym(s)
               [] s.fam = "order" -> BuildOrder(s)
               [] s.fam = "dir" -> BuildDir(s)
               [] s.fam \in {"cont", "cont2"} -> BuildCont(s)
